@@ -1031,11 +1031,20 @@ func sixFromRules(c *Ctx, path []string, lit Lit, m map[string]interface{}) (six
 	var r sixResult
 	for i := 0; i < 6; i++ {
 		lf := &Node{T: NCmp, Path: path, Op: 13 + i, Lit: lit}
-		o := evalFresh(c.style(c.R.Chance(1, 2)).Render(lf), m)
+		text := c.style(c.R.Chance(1, 2)).Render(lf)
+		o := evalFresh(text, m)
 		if o.E != "-" {
 			return r, false
 		}
 		r[i] = o.V
+		if c.R.Chance(1, 4) && len(o.Calls) == 0 {
+			// the same comparison through the one-shot entry point of the root package: the order must not depend on it
+			if rv, re, resc := rulesEvaluate(text, m); resc == "" && (rv != o.V || re != "-") {
+				c.violate(Violation{What: "rules.Evaluate gives a comparison another outcome than NewEvaluator+Process", Rule: text, RuleHex: hx(text),
+					Object: fmt.Sprintf("%v", snap(m)), Demand: "verdict " + strconv.FormatBool(o.V) + ", no error", Go: fmt.Sprintf("rules.Evaluate -> (%v, err=%s)", rv, re)})
+				return r, false
+			}
+		}
 	}
 	return r, true
 }
@@ -1173,6 +1182,34 @@ func checkC18(c *Ctx) {
 		comparable := r1[0] || r1[1]
 		if comparable {
 			c.nontrivial(attr.String(), l1.Text, l2.Text)
+		}
+		// "for an attribute not comparable with the literal all six are false": comparability judged here, not by the engine
+		notComparable := false
+		switch kind {
+		case "long":
+			notComparable = !(attr.K == AVInt || attr.K == AVInt32 || attr.K == AVInt64 || attr.K == AVFloat)
+		case "dbl":
+			notComparable = !(attr.K == AVInt || attr.K == AVFloat || attr.K == AVInt32 || attr.K == AVInt64)
+		case "str":
+			notComparable = !(attr.K == AVStr || attr.K == AVStringer)
+		case "ver":
+			if attr.K != AVStr {
+				notComparable = true
+			} else if _, ok := parseSvRef(attr.S); !ok {
+				notComparable = true
+			}
+		}
+		if notComparable {
+			c.count("attribute_not_comparable_by_the_reference")
+			for _, rr := range []struct {
+				l Lit
+				r sixResult
+			}{{l1, r1}, {l2, r2}} {
+				if rr.r[0] || rr.r[1] || rr.r[2] || rr.r[3] || rr.r[4] || rr.r[5] {
+					report("the attribute is not comparable with a "+kind+" literal (not of the family's type / not a semantic version), so all six operators must be false", rr.l, rr.r, "rules")
+					break
+				}
+			}
 		}
 		if ord, ok := litOrder(kind, l1, l2); ok && comparable && (r2[0] || r2[1]) {
 			lo, hi, rlo, rhi := l1, l2, r1, r2
